@@ -1597,7 +1597,8 @@ class Mps(MatrixProduct):
             else:
                 tensor = tensordot(tensor, ms, ([0,-1,-2],[0,-1,-2]))
             assert xp.allclose(tensor, tensor.T.conj())
-            rdm[ims] = asnumpy(tensor)
+            # the first index of `tensor` comes from the bra (ms.conj()): rho[s, s'] = <s|rho|s'> is its transpose
+            rdm[ims] = asnumpy(tensor.T)
 
         return rdm
     
@@ -1655,7 +1656,8 @@ class Mps(MatrixProduct):
                 rtensor = R_component[jms]
                 res = tensordot(tensor, rtensor,
                         ([2,3],[0,1])).transpose(0,2,1,3)
-                rdm[(ims, jms)] = asnumpy(res.reshape(res.shape[0]*res.shape[1],-1))
+                # rows of `res` are bra indices, columns ket indices: rho = <ket...|rho|bra...> is the transpose
+                rdm[(ims, jms)] = asnumpy(res.reshape(res.shape[0]*res.shape[1],-1).T)
         return rdm
     
     def calc_edof_rdm(self) -> np.ndarray:
